@@ -22,7 +22,7 @@ def daqmx_enc(n, scalers, widths, kind='fc', dtype='DaqMxRawData'):
 def f4_segment(kind, opt, si=0):
     """One segment of an F4 file: target channel A per `opt`, companion B always present."""
     present = isinstance(opt, tuple)
-    n, chunks = opt if present else (1, 1)
+    n, chunks = opt if present else (2, 1)     # (segments in which the target has no data still hold two rows of the companion)
     if kind == 'intswap':
         # same channels, listed in alternating order from segment to segment (new object list each time)
         objs = [(B, ['FULL', 'Int16', n + 1])]
